@@ -36,13 +36,15 @@ func HC16_specialComment() {
 // carries, whatever the form of the declaration: a plain `type T struct`, a spec inside a
 // parenthesised `type ( ... )` group (the comment stands on the spec), several structs in one group.
 func HC16_declarationForms() {
-	form := vfChoice("form", 3)
+	form := vfChoice("form", 4)
 	var src string
 	switch form {
 	case 0:
 		src = "// gomacro:SQL ADD UNIQUE(Name)\ntype A struct {\n\tId int64\n\tName string\n}\n\ntype B struct {\n\tId int64\n}\n"
 	case 1:
 		src = "type (\n\t// gomacro:SQL ADD UNIQUE(Name)\n\tA struct {\n\t\tId int64\n\t\tName string\n\t}\n\n\tB struct {\n\t\tId int64\n\t}\n)\n"
+	case 3: // a group holding a single struct (B is declared on its own)
+		src = "type (\n\t// gomacro:SQL ADD UNIQUE(Name)\n\tA struct {\n\t\tId int64\n\t\tName string\n\t}\n)\n\ntype B struct {\n\tId int64\n}\n"
 	default:
 		src = "type (\n\tB struct {\n\t\tId int64\n\t}\n\n\t// some words\n\t// gomacro:SQL ADD UNIQUE(Name)\n\tA struct {\n\t\tId int64\n\t\tName string\n\t}\n)\n"
 	}
